@@ -1236,9 +1236,10 @@ def through_conversions(t):
     conversion swaps the index of the "present" variant (Some = 1, Ok = 0)."""
     n = 0
     t = values.strip_payload(t)
-    while is_call(t) and callee_name(t[1]) in ("ok_or", "ok_or_else", "ok") and t[2] and ("option::Option" in t[1] or "result::Result" in t[1]):
+    while is_call(t) and callee_name(t[1]) in ("ok_or", "ok_or_else", "ok", "map_err") and t[2] and ("option::Option" in t[1] or "result::Result" in t[1]):
+        if callee_name(t[1]) != "map_err":      # map_err keeps Ok as Ok: no swap of the "present" variant
+            n += 1
         t = values.strip_payload(t[2][0])
-        n += 1
     return t, n
 
 
